@@ -8,7 +8,10 @@ from .c01 import CORPUS_WORDS, nontrivial, classify_make_failure
 LEVEL = 'proof'
 RULE = ('argument strings drawn per character from weighted classes (plain, ok-punctuation, blank, single quote, sh-special, '
         'Make/Ninja-special incl. $ : space, backslash, non-ASCII) plus a corner-case corpus; a case is non-trivial when it '
-        'contains a character outside [A-Za-z0-9_]; distinct by exact text')
+        'contains a character outside [A-Za-z0-9_]; distinct by exact text; environment channel: environments of 0-4 names (identifier pool, '
+        'a quarter odd names in the W stage) with values from a corner corpus (tildes, colons, equals, dollars, ${cmd}, $in, quotes, blanks, empty), '
+        'tilde/colon-rich strings and the weighted classes; command lines as word lists, string-form lines starting two processes, mixtures, via '
+        'cmd= and cmds= of real command()/build_step() edges and local_env for tests')
 TRUSTED = ('R model Ninja/NinjaRead.v (lexer, $in/$out escaping) + Ninja/NinjaManifest.v (manifest structure, scoping, lookup order of '
            'command_of) is TRUSTED: no ninja binary exists in this sandbox; written from the Ninja manual / manifest_parser.cc / '
            'lexer.in.cc / eval_env.cc / graph.cc / util.cc; documented deviations are listed at the top of NinjaManifest.v and guarded at run time',
@@ -437,6 +440,214 @@ def stage_manifest_theorems(rep, rng, n):
     return dis, bad
 
 
+# ----------------------------------------------------------------------------- environment channel
+def stage_w_env_ninja(rep, rng, n):
+    """W tie of the environment channel (Ninja/NinjaEnv.v nwrite_items; C02_env_through_ninja / C02_env_local_through_ninja /
+    C02_items_through_ninja): the text the real ninja Writer.write_shell makes of the real global_env / local_env item list
+    (word-list lines, raw string-form lines, odd names, values with every character class; a newline makes the writer raise)
+    against (a) the model of the whole pipeline global_env/local_env -> write and (b) the model writer on the real items."""
+    from bfg9000.backends.ninja.syntax import NinjaFile
+    from bfg9000.shell import posix as pshell
+    from . import c01
+    uw, _ = gen.uni_tables()
+    calls, impl = [], []
+    nf = NinjaFile('build.bfg')
+
+    def gen_line():
+        if rng.random() < 0.25:
+            return gen.arg_string(rng, rep, maxlen=8)        # a raw string: passed through as one shell_literal
+        return gen.arg_list(rng, rep, maxn=3, maxlen=6)
+
+    def written(items):
+        w = nf.writer(StringIO(), shell=pshell)
+        try:
+            w.write_shell(items)
+            return w.stream.getvalue()
+        except ValueError:
+            return None
+    for i in range(n):
+        env = c01.gen_env(rng, rep, odd=0.25)
+        if i % 7 == 0:
+            env[rng.choice(c01.ENV_NAMES_OK)] = rng.choice(['$', '$$', 'a$b', '${cmd}', '$in', '$out $', ' $ ', "'$'", '$\n'])
+        lines = [gen_line() for _ in range(rng.choice([0, 1, 1, 2, 3]))]
+        pairs = [[k, v] for k, v in env.items()]
+        got = pshell.global_env(env, lines if (lines or rng.random() < 0.5) else None)
+        iv = written(got)
+        calls.append(('ninja.global_env_text', [uw, pairs, [c01.enc_line(l) for l in lines]])); impl.append(iv)
+        calls.append(('ninja.write_items', [uw, [c01.canon_item(x) for x in got]])); impl.append(iv)
+        line = gen_line()
+        got = pshell.local_env(env, line)
+        iv2 = written(got)
+        calls.append(('ninja.local_env_text', [uw, pairs, c01.enc_line(line)])); impl.append(iv2)
+        calls.append(('ninja.write_items', [uw, [c01.canon_item(x) for x in got]])); impl.append(iv2)
+        rep.case('wenvn:%r:%r:%r' % (pairs, lines, line), True)
+        rep.count('wenv-ninja:nenv=%d' % len(env))
+        rep.count('wenv-ninja:%s' % ('writer raises (newline)' if iv is None or iv2 is None else 'written'))
+        if any(isinstance(l, str) for l in lines):
+            rep.count('wenv-ninja:with a raw string-form line')
+    rep.sample({'stage': 'W:ninja env', 'call': calls[0][0], 'arg': calls[0][1], 'impl': impl[0]})
+    return common.compare_model(rep, 'W:global_env/local_env->ninja Writer.write_shell', calls, impl,
+                                lambda name, r: d_opt(d_str, r))
+
+
+RAW_WORD_ATOMS = ['a', 'b', 'c.o', ' ', '$', '$$', '~', ':', '=', '/', '-x', '${cmd}', '#', '*', ';', '&', '|']
+
+
+def raw_word(rng):
+    return ''.join(rng.choice(RAW_WORD_ATOMS) for _ in range(rng.randint(1, 3)))
+
+
+def binding_of_text(text, name='cmd'):
+    """The text of the edge binding `  name = ...` in a written build.ninja (None if absent)."""
+    pre = '  %s = ' % name
+    for l in text.split('\n'):
+        if l.startswith(pre):
+            return l[len(pre):]
+    return None
+
+
+def stage_t_env_ninja(rep, rng, n):
+    """Theorem-level stage of C02_env_through_ninja / C02_env_local_through_ninja / C02_items_through_ninja on the REAL
+    handler: real command() / build_step() edges with environment= (word-list command lines, string-form lines that start
+    two processes, several lines) are created in process by the real builtins, the REAL ninja_command + command_build +
+    NinjaFile.write produce build.ninja; tests: the real local_env through command_build.
+    (W) the written binding cmd must equal the model text of global_env (steps) / local_env (tests);
+    (T) the binding, lexed and evaluated by the Ninja model and run by the sh model (private HOME), must start exactly the
+    declared processes, each with the declared words and the declared environment on top of the initial one.
+    A mismatch of (T) is re-run for real: the whole manifest through the reference evaluator, the command through /bin/dash
+    with the recorder; if dash misdelivers too it is a failing input, otherwise a broken obligation.
+    Returns (W disagreements, failing inputs)."""
+    import shlex
+    import logging
+    from . import c01, c14
+    from bfg9000 import builtins as B
+    B.init()
+    from bfg9000.builtins import command as bcommand      # noqa: F401  (registers the handlers)
+    from bfg9000.backends.ninja import writer as ninja
+    from bfg9000.backends.ninja.syntax import NinjaFile
+    from bfg9000.shell import posix as pshell
+    uw, _ = gen.uni_tables()
+    logging.disable(logging.WARNING)
+    benv = c14.make_env((True, True))
+    d = c01.DashEnv()
+    cases = []
+    for v in c01.ENV_VALUES + ['$', '$$', 'a$b', '${cmd}', '$in $out', ' $ ', "'$'", '$HOME:~']:
+        cases.append(({'VAR': v}, rng.choice(['words', 'line', 'test'])))
+    while len(cases) < n:
+        env = {k: v for k, v in c01.gen_env(rng, rep, maxn=4).items() if c01.ident_ok(k)}
+        cases.append((env, rng.choice(['words', 'words', 'line', 'line', 'mixed', 'test'])))
+    calls, impl, recs_, lines_eq_bad = [], [], [], []
+    found = broken = eq_checked = 0
+    try:
+        for idx, (env, form) in enumerate(cases):
+            def words():
+                return [rng.choice(['rec', 'rec2'])] + [c01.env_value(rng, rep) for _ in range(rng.randint(0, 3))]
+
+            def rawline():
+                procs = [[rng.choice(['rec', 'rec2'])] + [raw_word(rng) for _ in range(rng.randint(0, 2))] for _ in range(2)]
+                return ' && '.join(' '.join(shlex.quote(w) if w not in ('rec', 'rec2') else w for w in p) for p in procs), procs
+            if form == 'words':
+                lines = [words() for _ in range(rng.randint(1, 3))]
+                procs = lines
+            elif form == 'line':
+                l, procs = rawline()
+                lines = [l]
+            elif form == 'mixed':
+                l, p2 = rawline()
+                w1, w2 = words(), words()
+                lines, procs = [w1, l, w2], [w1] + p2 + [w2]
+            else:
+                lines = [words()]
+                procs = lines
+            if any(c in w for p in procs for w in p for c in '\0\n\r') or any(c in v for v in env.values() for c in '\0'):
+                continue
+            out_name = 'st%d' % idx
+            o = StringIO()
+            try:
+                if form == 'test':
+                    nf = NinjaFile('build.bfg')
+                    ninja.command_build(nf, _FakeEnv(True), output=out_name, command=pshell.local_env(env, lines[0]), console=True, phony=True)
+                    model_call = ('ninja.local_env_text', [uw, [[k, v] for k, v in env.items()], c01.enc_line(lines[0])])
+                else:
+                    build, ctx = c14.make_context(benv)
+                    kw = {'cmd': lines[0]} if len(lines) == 1 and rng.random() < 0.7 else {'cmds': lines}
+                    if rng.random() < 0.5:
+                        node = ctx['command'](out_name, environment=dict(env), **kw)
+                    else:
+                        node = ctx['build_step'](out_name, environment=dict(env), **kw)
+                    nf = NinjaFile('build.bfg')
+                    ninja.rule_handler.run([node.creator], build, nf, benv)
+                    model_call = ('ninja.global_env_text', [uw, [[k, v] for k, v in env.items()], [c01.enc_line(l) for l in lines]])
+                    rep.count('T:env-ninja:%s via %s' % (type(node.creator).__name__, 'cmd=' if 'cmd' in kw else 'cmds='))
+                nf.write(o)
+                text = o.getvalue()
+                binding = binding_of_text(text)
+            except ValueError:
+                text = binding = None
+            calls.append(model_call); impl.append(binding)
+            rep.case('tenvn:%s:%r:%r' % (form, env, lines), True)
+            rep.count('T:env-ninja:form=' + form)
+            if binding is not None:
+                recs_.append((form, env, lines, procs, out_name, text, binding))
+        dis = common.compare_model(rep, 'W:real ninja_command/command_build cmd binding == model of global_env/local_env', calls, impl,
+                                   lambda name, r: d_opt(d_str, r), vm_limit=60)
+        raw = common.model_batch([('ninja.cmd_run', [uw, d.env0, [], 'IN', 'OUT', r[6]]) for r in recs_])
+        # the equation of C02_env_lines_through_ninja on the real binding: Ninja + sh on the text == the lines alone in a shell
+        # where env has been exported (right-hand side computed by the model from env and lines only)
+        raw_rhs = common.model_batch([('ninja.lines_run', [uw, d.env0, [[k, v] for k, v in r[1].items()], [c01.enc_line(l) for l in r[2]]])
+                                      for r in recs_])
+        eq_checked = 0
+        for (form, env, lines, procs, out_name, text, binding), r, r2 in zip(recs_, raw, raw_rhs):
+            mv = c01.d_run(r)
+            if form != 'test':
+                eq_checked += 1
+                if c01.d_run(r2) != mv:
+                    rep.count('T:env-ninja:lines equation fails on the real binding')
+                    lines_eq_bad.append((env, lines, binding, mv, c01.d_run(r2)))
+            base = {'HOME': c01.PRIVATE_HOME, 'PRE': 'pre0'}
+            base.update(env)
+            names = tuple(base)
+            want = ([(p[0], p[1:], dict(base)) for p in procs], True)
+            got = None if mv is None else ([(p[1][0], p[1][1:], {k: v for k, v in p[0].items() if k in names}) for p in mv[0]], mv[1])
+            if got == want:
+                continue
+            real, cmdline = None, None
+            try:
+                cmdline = ninjaparse.parse(text).command(out_name)
+                real = d.run(cmdline, names)
+            except (ninjaparse.NinjaError, ninjaparse.NinjaDisagreement) as e:
+                real = 'evaluator: %s' % e
+            if real != want:
+                if found >= 5:            # enough failing inputs reported; the rest is only counted
+                    rep.count('T:env-ninja:further failing inputs (not reported one by one)')
+                    found += 1
+                    continue
+                if rep.fail('ninja backend: environment %r of a %s with command line(s) %r: written as cmd = %r, /bin/sh starts %r, declared %r' % (
+                            env, 'test' if form == 'test' else 'step', lines, binding, real, want),
+                            {'channel': 'env', 'form': form, 'env': env, 'lines': lines, 'binding': binding, 'command': cmdline,
+                             'delivered': real, 'declared': want, 'model': got, 'build.ninja': text}, classes=()):
+                    found += 1
+            else:
+                broken += 1
+                rep.fail('T:env ninja - the binding %r written by the real handler is not delivered by the Ninja + sh models as declared: '
+                         'model %r, declared %r (real dash: %r)' % (binding, got, want, real),
+                         {'obligation': 'C02_env_through_ninja on the real text', 'binding': binding, 'model': got, 'declared': want,
+                          'dash': real}, found_input=False)
+        if lines_eq_bad and not found:
+            env, lines, binding, lhs, rhs = lines_eq_bad[0]
+            broken += 1
+            rep.fail('T:env ninja - C02_env_lines_through_ninja does not hold on the binding %r the real handler writes for environment %r, '
+                     'lines %r (%d cases): Ninja + sh model %r, the lines in the exporting shell %r' % (binding, env, lines, len(lines_eq_bad), lhs, rhs),
+                     {'obligation': 'C02_env_lines_through_ninja on the real text', 'binding': binding, 'env': env, 'lines': lines,
+                      'lhs': lhs, 'rhs': rhs}, found_input=False)
+    finally:
+        d.close()
+        logging.disable(logging.NOTSET)
+    rep.stage('T:environment theorems on the text of the real ninja_command', texts=len(recs_), failing_inputs=found, broken=broken,
+              lines_equation_checked=eq_checked, lines_equation_fails=len(lines_eq_bad))
+    return dis, found
+
+
 # ----------------------------------------------------------------------------- system: steps with description=
 ODD_BITS = [' ', '$x', '$HOME', "'", '"', ';', '&', '(', '#', '*', '=', ' -', '`']
 
@@ -546,6 +757,10 @@ def _run(rep):
     dis = dis + stage_w_file(rep, rng, 400 if thorough else 60)
     dis2, found = stage_manifest_theorems(rep, rng, (600 if thorough else 80) * (5 if dis else 1))
     dis = dis + dis2
+    dis = dis + stage_w_env_ninja(rep, rng, 1500 if thorough else 250)
+    dis3, found3 = stage_t_env_ninja(rep, rng, (1500 if thorough else 250) * (5 if dis else 1))
+    dis = dis + dis3
+    found += found3
     found += stage_oracle_ninja(rep, rng, (500 if thorough else 60) * (5 if dis else 1))
     from . import c06
     for i in range(12 if thorough else 2):
